@@ -40,6 +40,11 @@ mut("rev_D6_dfxp_open_span", "C09", "catch", [("pycaption/dfxp/base.py", "      
 mut("rev_D6_legacy_open_span", "C09", "catch", [("pycaption/dfxp/extras.py", "        self.open_span = False\n        caption_set = deepcopy(caption_set)", "        caption_set = deepcopy(caption_set)")])
 mut("rev_D6_sami_open_span", "C09", "catch", [("pycaption/sami.py", "        self.open_span = False\n        caption_set = deepcopy(caption_set)", "        caption_set = deepcopy(caption_set)")])
 
+mut("rev_D7_negative_extent", "C20", "catch", [("pycaption/geometry.py", "            diff_horizontal = Size(\n                max(90 - self.origin.x.value, 0), UnitEnum.PERCENT)\n            diff_vertical = Size(\n                max(95 - self.origin.y.value, 0), UnitEnum.PERCENT)\n",
+    "            diff_horizontal = Size(90 - self.origin.x.value, UnitEnum.PERCENT)\n            diff_vertical = Size(95 - self.origin.y.value, UnitEnum.PERCENT)\n")],
+    note="reverse of fix D7")
+mut("rev_D9_scc_negative_timecode", "C20", "catch", [("pycaption/scc/__init__.py", "            code_start = max(start - code_time_microseconds, 0)\n", "            code_start = start - code_time_microseconds\n")],
+    note="reverse of fix D9")
 mut("rev_D10_cssutils_flag_not_restored", "C10", "catch", [("pycaption/sami.py", "        raise_exceptions = log.raiseExceptions\n        try:\n            sheet = parseString(css)\n        finally:\n            log.raiseExceptions = raise_exceptions\n", "        sheet = parseString(css)\n")],
     note="reverse of fix D10: cssutils leaves its global raiseExceptions flag off when a stylesheet parse raises")
 
